@@ -433,11 +433,13 @@ def gen_c13(run_seed):
                 opts['output.format'] = pick(rng, [True, False])
             if maybe(rng, 0.3):
                 opts['stylesheet.between'] = pick(rng, [': ', ':', ' '])
-            if maybe(rng, 0.12):
-                # separators that carry a line break of their own
-                opts['stylesheet.between'] = pick(rng, [':\n\t', ' :\n', ':\n\n'])
-            if maybe(rng, 0.12):
-                opts['stylesheet.after'] = pick(rng, [';\n', '\n;', '', ' ;', ';\n\n'])
+            # separators that carry a line break of their own (drawn from a stream of their own, so that the
+            # histories generated before this option family existed stay what they were)
+            rng2 = random.Random(run_seed ^ (0x5EA1 + ci))
+            if maybe(rng2, 0.12):
+                opts['stylesheet.between'] = pick(rng2, [':\n\t', ' :\n', ':\n\n'])
+            if maybe(rng2, 0.12):
+                opts['stylesheet.after'] = pick(rng2, [';\n', '\n;', '', ' ;', ';\n\n'])
             if maybe(rng, 0.2):
                 opts['stylesheet.json'] = True
             if maybe(rng, 0.3):
